@@ -23,7 +23,7 @@ ASSUMPTIONS = ["composition lemma (C06 + C01 + C03 + writer => C02) is argued in
                "variants are >= 12 bp apart and indels are left-normalised (the statement's 'well separated', 'normalised position')"]
 
 
-def check_truth(sc, out_text, samples=None, only_snvs=False):
+def check_truth(sc, out_text, samples=None, only_snvs=False, prephased_input=False):
     sams, records, phase = PH.decode_phasing(out_text)
     pos_index = {}
     for c in sc["contigs"]:
@@ -38,6 +38,8 @@ def check_truth(sc, out_text, samples=None, only_snvs=False):
             h = sc["truth"][s][rec["chrom"]]
             t = (h[0][i], h[1][i])
             if samples and s not in samples:
+                if prephased_input:
+                    continue         # calls of samples that were not selected are passed through with whatever phasing the input carried (C04)
                 return dict(expected="sample %s not selected -> not phased" % s, observed="%s:%d phased" % (rec["chrom"], rec["pos"])), 0
             if only_snvs and v["kind"] != "snv":
                 return dict(expected="--only-snvs: %s:%d (%s) not phased" % (rec["chrom"], rec["pos"], v["kind"]), observed=str(tup)), 0
@@ -66,7 +68,7 @@ class ErrorFree(BCheck):
     name = "C02.error-free-reads"
     contract = ("run_whatshap on error-free reads: every phase set of the output carries, for its sample, exactly the true haplotype alleles at all its phased "
                 "variants up to exchanging the two haplotypes of the set as a whole; nothing homozygous / unselected is phased")
-    rule = ("seeded scenarios (half of them spell a third of the unphased input genotypes in descending order, 1/0): reference 300-500 bp, 3-8 variants >= 12 bp apart (SNV/MNP/ins/del mixes), 1-2 samples, depth 2-30 per haplotype, read length 40-150, soft "
+    rule = ("seeded scenarios (half of them spell a third of the unphased input genotypes in descending order, 1/0; a fifth carry stale phasing of an earlier run on every heterozygous call): reference 300-500 bp, 3-8 variants >= 12 bp apart (SNV/MNP/ins/del mixes), 1-2 samples, depth 2-30 per haplotype, read length 40-150, soft "
             "clips, =/X CIGARs, with reference; SNV-only scenarios also without reference; --tag PS|HP, --only-snvs, --sample subset; non-trivial = >= 2 variants phased")
     budget_s = {"quick": 150, "thorough": 1800}
     chunk = 4
@@ -108,11 +110,12 @@ class ErrorFree(BCheck):
                 paths = BAM.materialize(sc, d)
                 bams.append(paths["bam"])
             samples = [sc["samples"][0]] if (inp["subset"] and len(sc["samples"]) > 1) else None
-            res = run_phase(BAM.vcf_text(sc, rev_rng=random.Random(inp["seed"] ^ 0x5EED), rev_frac=0.35 if inp["seed"] % 2 else 0.0), bams=bams, reference=False if inp["noref"] else paths["fasta"], tag=inp["tag"],
+            res = run_phase(BAM.vcf_text(sc, rev_rng=random.Random(inp["seed"] ^ 0x5EED), rev_frac=0.35 if inp["seed"] % 2 else 0.0,
+                                          stale_rng=random.Random(inp["seed"] ^ 0xA11CE) if inp["seed"] % 5 == 0 else None), bams=bams, reference=False if inp["noref"] else paths["fasta"], tag=inp["tag"],
                             only_snvs=inp["only_snvs"], samples=samples, max_coverage=inp["max_coverage"])
             if res["error"]:
                 return dict(expected="run succeeds", observed=res["error"], traceback=res.get("traceback"))
-            fail, n = check_truth(sc, res["out"], samples=samples, only_snvs=inp["only_snvs"])
+            fail, n = check_truth(sc, res["out"], samples=samples, only_snvs=inp["only_snvs"], prephased_input=(inp["seed"] % 5 == 0))
             return fail
         finally:
             shutil.rmtree(d, ignore_errors=True)
